@@ -118,6 +118,9 @@ def _trace_check(out, pid, module, cfg, tr, cmd, ntraces, label):
     out.transitions += max(res.generated - 1, 0)
     out.extra.setdefault("trace_validation", []).append(
         {"spec": module, "events": sum(1 for _ in open(tr)), "accepted": rej is None, "wall_s": round(res.wall, 1)})
+    if getattr(res, "agree", None):
+        out.extra["trace_validation"][-1]["outcomes_equal_to_reference_model"] = res.agree[0]
+        out.extra["trace_validation"][-1]["outcomes_judged_by_contract"] = res.agree[1]
     if rej is not None:
         evname = str(rej.get("ev", {}).get("ev", rej.get("invariant"))) if isinstance(rej.get("ev", {}), dict) else "?"
         out.violations.append({
